@@ -95,7 +95,10 @@ func c19AccGen(t *rapid.T) c19AccCase {
 	}
 	k := rapid.IntRange(2, 8).Draw(t, "k")
 	// three program shapes: everybody asks for the ID first; nobody touches the ID; free mix
-	shape := rapid.IntRange(0, 3).Draw(t, "shape")
+	shape := rapid.IntRange(0, 5).Draw(t, "shape")
+	// shapes 4, 5: every goroutine starts with the SAME accessor (any of them may keep a lazily
+	// computed value or tidy a slice in place), then goes its own way
+	same := rapid.IntRange(0, len(c19Accessors)-1).Draw(t, "sameAcc")
 	for g := 0; g < k; g++ {
 		n := rapid.IntRange(1, 3).Draw(t, "n")
 		var prog []int
@@ -109,6 +112,10 @@ func c19AccGen(t *rapid.T) c19AccCase {
 			case 1:
 				for c19TouchesID(c, idx) {
 					idx = (idx + 3) % len(c19Accessors)
+				}
+			case 4, 5:
+				if i == 0 {
+					idx = same
 				}
 			}
 			prog = append(prog, idx)
